@@ -1133,6 +1133,7 @@ Lemma entry_eqb_refl e : entry_eqb e e = true.
 Proof.
   unfold entry_eqb. rewrite (list_eqb_refl _ Nat.eqb_refl). unfold kids_eqb, attrs_eqb.
   rewrite (list_eqb_refl _ oid_eqb_refl), str_eqb_refl, (list_eqb_refl _ attr_eqb_refl).
+  rewrite Nat.eqb_refl, andb_true_r.
   destruct (e_priv e) as [[p l]|]; cbn; [|reflexivity].
   rewrite (list_eqb_refl _ Nat.eqb_refl). apply (list_eqb_refl _ oid_eqb_refl).
 Qed.
